@@ -16,11 +16,11 @@ def pyvc_units(prop, modules):
         mod = importlib.import_module(m)
         seen = {}
         for c in mod.CONTRACTS:
+            key = (c.target, c.kind, c.ordinal)
+            nth = seen.get(key, 0)          # position among ALL contracts of the module on this function (the driver selects by this index)
+            seen[key] = nth + 1
             if prop not in c.props:
                 continue
-            key = (c.target, c.kind, c.ordinal)
-            nth = seen.get(key, 0)
-            seen[key] = nth + 1
             name = f"pyvc:{c.target}" + (f"[{c.kind}]" if c.kind != "function" else "") + (f"#{c.ordinal}" if c.ordinal else "") + (f"~{nth}" if nth else "")
             units.append(dict(kind="pyvc", mechanism="pyvc (A: VCs from the real AST, unbounded)", name=name, module=m, target=c.target,
                               ckind=c.kind, ordinal=c.ordinal, nth=nth, registry_modules=list(modules)))
